@@ -239,3 +239,37 @@ let blktimed toks =
   | _ -> failwith "blktimed args"
 
 let () = register "blktimed" blktimed
+
+(* blkpeerg2 <len> <seed> <maxszx> <item>... item = num/szx/q : the Block2 server table model *)
+let blkpeerg2 toks =
+  match toks with
+  | len :: seed :: mx :: items ->
+      let blen = int_of_string len in
+      let cache = Hashtbl.create 8 in
+      let body_t t =
+        match Hashtbl.find_opt cache t with
+        | Some b -> b
+        | None -> let b = List.init blen (fun i -> zbyte.(fill_byte (int_of_string seed + t) i)) in
+                  Hashtbl.add cache t b; b in
+      let bodies k = body_t (int_of_z k) in
+      let tab = ref [] in
+      let res = List.map (fun it ->
+          match String.split_on_char '/' it with
+          | [n; s; q] ->
+              let t = if q = "-" then 0 else int_of_string q in
+              let g = { gq_key = z_of_int t; gq_num = zi n; gq_szx = zi s } in
+              let (t', r) = blk_srv2_recv bodies (zi mx) !tab g in
+              tab := t';
+              (match r with
+               | GrError c -> Printf.sprintf "R:%d:-:0:-" (int_of_z c)
+               | GrBlock (num, m, szx, data) ->
+                   let off = int_of_z num lsl (int_of_z szx + 4) in
+                   let ln = List.length data in
+                   let eq = off + ln <= blen && sub (body_t t) off ln = data in
+                   Printf.sprintf "R:69:%s/%s/%s:%d:%s" (zs num) (zs m) (zs szx) ln
+                     (if ln = 0 then "-" else if eq then "=" else "!"))
+          | _ -> "BADITEM") items in
+      String.concat " " res ^ " END"
+  | _ -> failwith "blkpeerg2 args"
+
+let () = register "blkpeerg2" blkpeerg2
